@@ -843,7 +843,10 @@ func (w *World) genSegment(key string) *J {
 		if r.P(0.85) {
 			g := int64(r.Intn(3))
 			s.Set("generation", JInt(g))
-			w.bigRefs = append(w.bigRefs, fmt.Sprintf("%s.g%d", key, g))
+			// the store also knows the other generations of this segment (a later version of the same key may ask for them)
+			for og := int64(0); og < 3; og++ {
+				w.bigRefs = append(w.bigRefs, fmt.Sprintf("%s.g%d", key, og))
+			}
 		} else {
 			s.Set("generation", JNull())
 		}
